@@ -340,17 +340,35 @@ func (b *Built) naturalValue(t TypeRef, tag, fn string, oc Outcome) interface{} 
 	rt := t.N
 	if tr.Kind == "INTERFACE" || tr.Kind == "UNION" {
 		rt = tr.Defrt
-		if oc.Rt != "" {
-			rt = oc.Rt
+	}
+	if oc.Rt != "" {
+		rt = oc.Rt
+	}
+	if oc.Rt == "-" {
+		rt = ""
+	}
+	if tr.Plain {
+		// a type without resolvers: DefaultResolveFn reads this map by field name
+		m := map[string]interface{}{}
+		for _, f := range tr.Fields {
+			m[f.Name] = b.naturalValue(f.Type, tag+"."+f.Name, f.Name, Outcome{K: "val"})
 		}
-		if oc.Rt == "-" {
-			rt = ""
-		}
+		return m
 	}
 	return &Src{Tag: tag, Rt: rt}
 }
 
 type wrongKind struct{ X int }
+
+func isTypeOfFor(name string, enabled bool) graphql.IsTypeOfFn {
+	if !enabled {
+		return nil
+	}
+	return func(p graphql.IsTypeOfParams) bool {
+		s, ok := p.Value.(*Src)
+		return ok && s != nil && s.Rt == name
+	}
+}
 
 func (b *Built) resolver(tn string, fd FieldDef) graphql.FieldResolveFn {
 	return func(p graphql.ResolveParams) (interface{}, error) {
@@ -564,6 +582,10 @@ func Build(s *Schema) (*Built, error) {
 				}),
 			})
 		case "INTERFACE":
+			rtFn := resolveType
+			if tr.NoRT {
+				rtFn = nil // the default resolution asks the implementers' IsTypeOf
+			}
 			b.Types[name] = graphql.NewInterface(graphql.InterfaceConfig{
 				Name: name,
 				Fields: graphql.FieldsThunk(func() graphql.Fields {
@@ -573,7 +595,7 @@ func Build(s *Schema) (*Built, error) {
 					}
 					return out
 				}),
-				ResolveType: resolveType,
+				ResolveType: rtFn,
 			})
 		case "UNION":
 			// members filled in pass 2 (objects must exist)
@@ -583,11 +605,15 @@ func Build(s *Schema) (*Built, error) {
 				Fields: graphql.FieldsThunk(func() graphql.Fields {
 					out := graphql.Fields{}
 					for _, f := range tr.Fields {
-						out[f.Name] = &graphql.Field{Type: wrap(f.Type).(graphql.Output), Args: argCfg(f.Args),
-							Resolve: b.resolver(name, f)}
+						fld := &graphql.Field{Type: wrap(f.Type).(graphql.Output), Args: argCfg(f.Args)}
+						if !tr.Plain {
+							fld.Resolve = b.resolver(name, f)
+						}
+						out[f.Name] = fld
 					}
 					return out
 				}),
+				IsTypeOf: isTypeOfFor(name, tr.IsTypeOf),
 				Interfaces: graphql.InterfacesThunk(func() []*graphql.Interface {
 					var out []*graphql.Interface
 					for _, in := range tr.Ifaces {
